@@ -15,7 +15,7 @@ type c19 struct{ base }
 
 func init() {
 	runner.Register(&c19{base{id: "C19", level: "exploration",
-		rule: "per case: 1-3 tables (hash-only / hash+range / with 2 GSIs + 1 LSI) brought to a random state by the same seeded history on a client and its TWIN; then a BatchWriteItem of 1-25 requests (puts and deletes mixed, keys present and absent, tables repeated, distinct keys within a batch) on the client versus the same requests as single PutItem/DeleteItem calls on the twin: the complete observations of all tables (every key, base scan, every index scan, DescribeTable counts) must be identical, and both must agree with the model; BatchGetItem (SDK v2) with 0-100 % absent keys versus individual GetItem: Responses per table = the multiset of non-empty individual results, UnprocessedKeys empty. non-trivial = batch has >=2 requests touching >=1 present and >=1 absent key; distinct by (adapter, tables, batch size, put/delete pattern, present/absent pattern).",
+		rule: "per case: 1-3 tables (hash-only / hash+range / with 2 GSIs + 1 LSI) brought to a random state by the same seeded history on a client and its TWIN; then a BatchWriteItem of 1-25 requests (puts and deletes mixed, keys present and absent, tables repeated, distinct keys within a batch) on the client versus the same requests as single PutItem/DeleteItem calls on the twin: the complete observations of all tables (every key, base scan, every index scan, DescribeTable counts) must be identical, and both must agree with the model; BatchGetItem (SDK v2) of 1-25 keys, and in every fourth case of 26-100 keys over 30-80 stored bulk items, with 0-100 % absent keys versus individual GetItem: Responses per table = the multiset of non-empty individual results, UnprocessedKeys empty. non-trivial = batch has >=2 requests touching >=1 present and >=1 absent key; distinct by (adapter, tables, batch size, put/delete pattern, present/absent pattern).",
 		assumptions: []string{"oracle = the same adapter executing the decomposition (metamorphic), cross-checked with the model", commonAssumptions[1]}}})
 }
 
@@ -55,6 +55,21 @@ func (p *c19) RunCase(ctx *runner.Ctx) runner.CaseResult {
 		s := mon.Pick(r, specs)
 		hist = append(hist, adapt.Op{Kind: adapt.OpPut, Table: s.Name, Item: mkItem(s, i)})
 	}
+	doGet := adapter == "v2" && ctx.Case%3 == 2
+	// every fourth BatchGetItem case is a LARGE one: 26-100 keys (the service limit is 100 keys per call,
+	// 25 is the limit of BatchWriteItem only) over unique bulk keys, 30-80 of which are stored
+	large := doGet && r.Intn(4) == 0
+	bulk := map[string][]val.Item{}
+	if large {
+		nb := 30 + r.Intn(51)
+		for i := 0; i < nb; i++ {
+			s := mon.Pick(r, specs)
+			it := mkItem(s, 1000+i)
+			it["h"] = val.Str(fmt.Sprint("bulk", i))
+			hist = append(hist, adapt.Op{Kind: adapt.OpPut, Table: s.Name, Item: it})
+			bulk[s.Name] = append(bulk[s.Name], it)
+		}
+	}
 	st := &mon.HistoryStats{}
 	if f := mon.RunHistory(cl, m, hist, keys, false, nil, ctx.Trace, st); f != nil {
 		x.failureViolation(adapter, f, specs)
@@ -67,8 +82,10 @@ func (p *c19) RunCase(ctx *runner.Ctx) runner.CaseResult {
 	for _, s := range specs {
 		names = append(names, s.Name)
 	}
-	doGet := adapter == "v2" && ctx.Case%3 == 2
 	size := 1 + r.Intn(25)
+	if large {
+		size = 26 + r.Intn(75)
+	}
 	seen := map[string]bool{}
 	present, absent, puts, dels := 0, 0, 0, 0
 	if !doGet {
@@ -139,7 +156,14 @@ func (p *c19) RunCase(ctx *runner.Ctx) runner.CaseResult {
 		s := mon.Pick(r, specs)
 		var key val.Item
 		t := m.Tables[s.Name]
-		if r.Intn(100) < pAbsent || len(t.Items) == 0 {
+		if large {
+			if r.Intn(100) < pAbsent/2 || len(bulk[s.Name]) == 0 {
+				key = t.KeyOf(mkItem(s, 0))
+				key["h"] = val.Str(fmt.Sprint("never-written", i))
+			} else {
+				key = t.KeyOf(mon.Pick(r, bulk[s.Name]))
+			}
+		} else if r.Intn(100) < pAbsent || len(t.Items) == 0 {
 			key = t.KeyOf(mkItem(s, 0))
 			if r.Intn(2) == 0 {
 				key["h"] = val.Str("never-written")
